@@ -628,8 +628,24 @@ func TestVerif_C19_BMP(t *testing.T) {
 		Seeds: seeds, Opt: c19lib.MutOpt{PairStride: 1}, TailFull: 1,
 	}
 	if vr.Thorough() {
-		plan.Entries = entries
-		plan.Groups = []c19lib.StrGroup{{Label: "boundary<=4", Entries: entries, Alpha: c19lib.Boundary, MaxLen: 4}}
+		// thorough: the primary entry points keep all three executions; the others get the full alphabet
+		// up to length 3 with cap==len only (1.8 G calls otherwise) and the boundary alphabet up to 4 in all modes
+		var secondary []*c19lib.Entry
+		isPrimary := map[*c19lib.Entry]bool{}
+		for _, e := range primary {
+			isPrimary[e] = true
+		}
+		for _, e := range entries {
+			if !isPrimary[e] {
+				c := *e
+				c.TightOnly = true
+				secondary = append(secondary, &c)
+			}
+		}
+		plan.Groups = []c19lib.StrGroup{
+			{Label: "secondary full<=3 cap==len", Entries: secondary, Alpha: c19lib.FullAlphabet(), MaxLen: 3},
+			{Label: "boundary<=4", Entries: entries, Alpha: c19lib.Boundary, MaxLen: 4},
+		}
 		plan.Opt = c19lib.MutOpt{AllByteValues: true, Pairs: true, PairStride: 3}
 		plan.TailFull, plan.TailBoundary = 2, 3
 	}
